@@ -6,6 +6,8 @@
              | V (len q..) | t
        -> OK okb eqv | P V | rhs1 | rhs2
    IC sys n | G1 adj | nodelist | idx | G2 adj | nl2 | phi | X0 (len q..) | Y0 (len q..)
+       -> OK V0 | P V0 | V0'
+   PIC sys n | G1 adj | nodelist | idx | G2 adj | nl2 | phi | I0 (len nodes..) | R0 (len nodes..)      (the *_pure_IC entry points)
        -> OK V0 | P V0 | V0' *)
 let pv l = String.concat " " (List.map sq l)
 let nnat () = nat_of_int (nint ())
@@ -65,7 +67,22 @@ let run_ic () =
   let (v0, (pv0, v0')) = c14x_ic sys (mk_graph n adj) nodelist (tab_nat n idx) (mk_graph n adj2) nl2 (tab_n n phi) x0 y0 in
   out ("OK " ^ pv v0 ^ " | " ^ pv pv0 ^ " | " ^ pv v0')
 
+let run_pic () =
+  let sys = nnat () in
+  let n = nint () in
+  let adj = read_adj n in
+  let nodelist = List.init n (fun _ -> nn ()) in
+  let idx = Array.init n (fun _ -> nnat ()) in
+  let adj2 = read_adj n in
+  let nl2 = List.init n (fun _ -> nn ()) in
+  let phi = Array.init n (fun _ -> nn ()) in
+  let i0 = nlist nn in
+  let r0 = nlist nn in
+  let (v0, (pv0, v0')) = c14x_pure_ic sys (mk_graph n adj) nodelist (tab_nat n idx) (mk_graph n adj2) nl2 (tab_n n phi) i0 r0 in
+  out ("OK " ^ pv v0 ^ " | " ^ pv pv0 ^ " | " ^ pv v0')
+
 let () = main (function
     | "EQV" -> run_eqv ()
     | "IC" -> run_ic ()
+    | "PIC" -> run_pic ()
     | c -> out ("BADCMD " ^ c))
